@@ -4973,7 +4973,8 @@ func (t *Terminal) Loop() error {
 				valid, list := t.buildPlusList(a.a, false)
 				if valid {
 					// We do not remove temp files in this case
-					command, _ := t.replacePlaceholder(a.a, false, string(t.input), list)
+					command, tempFiles := t.replacePlaceholder(a.a, false, string(t.input), list)
+					keepFiles(tempFiles)
 					t.tui.Close()
 					if t.history != nil {
 						t.history.append(string(t.input))
